@@ -158,7 +158,13 @@ def run(chk):
         for alg in ALGS:
             good = digest(alg, data).hex().encode()
             for line, ok in [(good + b" " + str(len(data)).encode() + b" file.bin", True), (b"  " + good + b"\t7   x ", True),
-                             (b"name.bin " + good, True), (good[:-1] + b"0 1 f", good[-1:] == b"0")]:
+                             (b"name.bin " + good, True), (good[:-1] + b"0 1 f", good[-1:] == b"0"),
+                             # file names that LOOK like digests (by-hash style names: all hex, as long as a digest of this or of
+                             # another algorithm): the name is the name and the hash is the hash
+                             (digest(alg, b"other content").hex().encode() + b" " + good, True),
+                             (digest(ALGS[(ALGS.index(alg) + 1) % 4], b"x").hex().encode() + b" " + good, True),
+                             (good + b" 12 " + digest(alg, b"other content").hex().encode(), True),
+                             (b"deadbeef " + good, True)]:
                 pcases.append(("hparsed", [alg.encode(), line, digest(alg, data)] + ch)); want.append("accept" if ok else "reject")
     pi, pm = chk.run_both(pcases)
     chk.compare("parsed-entries", pcases, pi, pm, nontrivial=lambda c, r: r.endswith("accept"))
